@@ -43,14 +43,19 @@ NA     == "n/a"
 Probe == [ex |-> PEx, typ |-> PTyp, lev |-> PLev, mode |-> PMode, fee |-> PFee, bal |-> PBal,
           warm |-> PWarm, rt |-> PRt, sim |-> PSim, out |-> "ok"]
 Dims == {"ex", "typ", "lev", "mode", "fee", "bal", "warm", "rt", "sim"}
-AllArgs == [ex : Exs, typ : Typs, lev : Levs, mode : Modes, fee : Fees, bal : Bals, warm : Warms, rt : Rts,
-            sim : Sims, out : Outcomes]
+Vals(d) == CASE d = "ex" -> Exs [] d = "typ" -> Typs [] d = "lev" -> Levs [] d = "mode" -> Modes [] d = "fee" -> Fees
+             [] d = "bal" -> Bals [] d = "warm" -> Warms [] d = "rt" -> Rts [] d = "sim" -> Sims
 Flips(x) == Cardinality({d \in Dims : x[d] # Probe[d]})
+\* all argument records that differ from the probe in at most n dimensions (built, not filtered: the full
+\* lattice has tens of thousands of points)
+RECURSIVE Within(_)
+Within(n) == IF n = 0 THEN {Probe}
+             ELSE UNION {{[x EXCEPT ![d] = v] : v \in Vals(d)} : x \in Within(n - 1), d \in Dims}
 \* leverage and leverage mode are not part of a spot configuration; a call that fails in _format_config
 \* installs nothing: such calls are enumerated once
 Canonical(x) == /\ (x.typ = "spot" => x.lev = PLev /\ x.mode = PMode)
                 /\ (x.out = "cfgerr" => Flips(x) = 0)
-Menu == {x \in AllArgs : Flips(x) <= MaxFlips /\ Canonical(x)}
+Menu == {y \in {[x EXCEPT !.out = o] : x \in Within(MaxFlips), o \in Outcomes} : Canonical(y)}
 
 \* ---- jh.get_config(key) outside pytest: memoised for ever (helpers.py l.338-347) -----------------
 Lookup(c, g, f, e) == IF c[f][e] # Absent THEN c[f][e] ELSE g[f][e]
